@@ -290,6 +290,42 @@ pub fn run(rep: &mut Report, thorough: bool) {
                 }
             }
         }
+        // ---- a reader that outlives a detach: the threads are released (a read through the ptrace
+        // strategy now fails: the target is not in a ptrace-stop), attached again, and the SAME
+        // readers must serve readable ranges exactly as before
+        {
+            let mut readers: Vec<(usize, MemReader)> = (0..3).map(|k| (k, reader(k, pid))).collect();
+            for (_, mr) in readers.iter_mut() {
+                let mut dst = vec![0u8; 16];
+                let _ = mr.read(region.start as usize + 64, &mut dst);
+            }
+            dumper.resume_threads(error_graph::strategy::DontCare);
+            for (_, mr) in readers.iter_mut() {
+                let mut dst = vec![0u8; 16];
+                let _ = mr.read(region.start as usize + 64, &mut dst); // may fail: not traced now
+                rep.count("reads_while_detached", 1);
+            }
+            dumper.suspend_threads(error_graph::strategy::DontCare);
+            if !dumper.threads.is_empty() {
+                for (kind, mr) in readers.iter_mut() {
+                    for &(start, len) in &[(region.start + 64, 16usize), (region.start + 4096 + 3, 4096), (region.end - 24, 24)] {
+                        let truth: Vec<u8> = (0..len as u64).map(|i| region.truth(start + i).unwrap_or(0)).collect();
+                        let mut dst = vec![0xAAu8; len];
+                        let res = mr.read(start as usize, &mut dst).map(|n| {
+                            dst.truncate(n);
+                            dst
+                        });
+                        rep.case(fnv(format!("reattached/{kind}/{start}/{len}").as_bytes()), true);
+                        rep.count("reads_after_reattach", 1);
+                        match res {
+                            Ok(v) if v == truth => {}
+                            Ok(v) => rep.violation(&format!("C17 {} returned wrong bytes after the target was released and attached again", STRATEGIES[*kind]), json!({"strategy": STRATEGIES[*kind], "start": format!("{start:#x}"), "len": len, "returned_len": v.len()})),
+                            Err(e) => rep.violation(&format!("C17 {} fails on a readable range after the target was released and attached again", STRATEGIES[*kind]), json!({"strategy": STRATEGIES[*kind], "start": format!("{start:#x}"), "len": len, "error": format!("{e}")})),
+                        }
+                    }
+                }
+            }
+        }
         // ---- the target dies (SIGKILL, not yet reaped: a zombie without an address space) while
         // readers for it exist: NOTHING is readable any more, so every strategy must fail or return
         // zero bytes - never "succeed" with bytes it did not read, and never panic
@@ -359,4 +395,5 @@ pub fn run(rep: &mut Report, thorough: bool) {
     rep.require("partly_unreadable_range_reads", 50);
     rep.require("auto_reader_reads", 100);
     rep.require("reads_from_a_dead_target", 18);
+    rep.require("reads_after_reattach", 9);
 }
